@@ -48,9 +48,20 @@ pub fn check(c: &Case) -> R {
     let p: &[u8] = &c.pattern;
     ensure!(!p.is_empty() && !c.texts.is_empty(), "harness: empty pattern/texts generated");
     let m = p.len();
+    /// the text as an iterator without an upper size hint (a streamed text: `size_hint` = (0, None))
+    fn streamed<'a>(t: &'a [u8]) -> impl Iterator<Item = &'a u8> + 'a {
+        let mut i = 0;
+        std::iter::from_fn(move || {
+            let r = t.get(i);
+            i += 1;
+            r
+        })
+    }
     if m <= 64 {
         let sa = ShiftAnd::new(p);
         check_matcher("ShiftAnd", p, &c.texts, &|t| capped(sa.find_all(t), t))?;
+        check_matcher("ShiftAnd (text as an iterator without size hint)", p, &c.texts, &|t| capped(sa.find_all(streamed(t)), t))?;
+        check_matcher("ShiftAnd (text as a chain of two halves)", p, &c.texts, &|t| capped(sa.find_all(t[..t.len() / 2].iter().chain(t[t.len() / 2..].iter())), t))?;
         let bn = BNDM::new(p);
         check_matcher("BNDM", p, &c.texts, &|t| capped(bn.find_all(t), t))?;
     }
@@ -60,6 +71,7 @@ pub fn check(c: &Case) -> R {
     check_matcher("Horspool", p, &c.texts, &|t| capped(hp.find_all(t), t))?;
     let kmp = KMP::new(p);
     check_matcher("KMP", p, &c.texts, &|t| capped(kmp.find_all(t), t))?;
+    check_matcher("KMP (text as an iterator without size hint)", p, &c.texts, &|t| capped(kmp.find_all(streamed(t)), t))?;
 
     let occs: Vec<Vec<usize>> = c.texts.iter().map(|t| naive_find(p, t)).collect();
     let any_occ = occs.iter().any(|o| !o.is_empty());
